@@ -63,6 +63,11 @@ NoiseOK(ev) ==
   /\ Within(ev.ma_e, ev.ma_r, 3) /\ Within(ev.m2_e, ev.m2_r, 4)        \* 10 standard errors at N >= 1e5
   /\ (ev.uselag => Within(ev.lag_e, ev.lag_r, 4))                      \* independence between neighbouring LLRs / I and Q
   /\ Abs(ev.mean_e) * 100 <= 3 * ev.ma_r                               \* zero mean (random data)
+  \* EVERY transmitted position of the frame carries noise (a continuous value: practically all frames differ there), every
+  \* punctured position is exactly zero in every frame
+  /\ Len(ev.pos_distinct) = ev.cfg.ncw /\ ev.frames >= 50
+  /\ LET P == Pat(ev.cfg.pat)  b == ev.cfg.ncw \div Len(P) IN
+     \A v \in 1..ev.cfg.ncw : IF P[((v - 1) \div b) + 1] THEN ev.pos_distinct[v] >= 40 ELSE ev.pos_distinct[v] = 1
 
 EvOK(ev) == CASE ev.e = "Sizes" -> SizesOK(ev) [] ev.e = "Frame" -> FrameOK(ev) [] ev.e = "Run" -> RunOK(ev)
               [] ev.e = "Noise" -> NoiseOK(ev) [] OTHER -> FALSE
